@@ -10,5 +10,5 @@ impl View for SmolStr { type V = int; uninterp spec fn view(&self) -> int; }
 
 impl Clone for SmolStr {
     #[verifier::external_body]
-    fn clone(&self) -> (r: Self) ensures r@ == self@ { unimplemented!() }
+    fn clone(&self) -> (r: Self) ensures r == *self { unimplemented!() }
 }
